@@ -161,3 +161,44 @@ Proof. unfold rots24. repeat (apply Forall_cons; [unfold proper, orthogonal, M3;
 (* they map the 0.001 A grid onto itself: every entry is 0, 1 or -1 *)
 Theorem rots24_integer : Forall (fun M => Forall (fun e => e = 0 \/ e = 1 \/ e = -1) [m11 M; m12 M; m13 M; m21 M; m22 M; m23 M; m31 M; m32 M; m33 M]) rots24.
 Proof. unfold rots24. repeat (apply Forall_cons; [unfold M3; cbn; repeat (apply Forall_cons; [lra|]); apply Forall_nil|]). apply Forall_nil. Qed.
+
+(* ------------------------------------------------------------------ group centres (model/Centre.v = Group.set_center) move with the structure *)
+From V Require Import Centre.
+Definition sx (pts : list V3) : R := fold_right (fun p a => vx p + a) 0 pts.
+Definition sy (pts : list V3) : R := fold_right (fun p a => vy p + a) 0 pts.
+Definition sz (pts : list V3) : R := fold_right (fun p a => vz p + a) 0 pts.
+Lemma fold_acc (pts : list V3) : forall acc,
+  vx (fold_left acc_add pts acc) = vx acc + sx pts /\ vy (fold_left acc_add pts acc) = vy acc + sy pts /\ vz (fold_left acc_add pts acc) = vz acc + sz pts.
+Proof.
+  unfold sx, sy, sz. induction pts as [|p r IH]; intros acc; cbn [fold_left fold_right]; [repeat split; lra|].
+  destruct (IH (acc_add acc p)) as (A & B & C). rewrite A, B, C. unfold acc_add. num_unfold. cbn.
+  repeat split; lra.
+Qed.
+Lemma sums_move M t (pts : list V3) :
+  sx (map (move M t) pts) = m11 M * sx pts + m12 M * sy pts + m13 M * sz pts + INR (List.length pts) * vx t /\
+  sy (map (move M t) pts) = m21 M * sx pts + m22 M * sy pts + m23 M * sz pts + INR (List.length pts) * vy t /\
+  sz (map (move M t) pts) = m31 M * sx pts + m32 M * sy pts + m33 M * sz pts + INR (List.length pts) * vz t.
+Proof.
+  unfold sx, sy, sz. induction pts as [|p r (A & B & C)]; [cbn; repeat split; lra|].
+  change (List.length (p :: r)) with (S (List.length r)). rewrite S_INR.
+  cbn [map fold_right]. rewrite A, B, C. unfold move, add, mapply. cbn. repeat split; lra.
+Qed.
+Theorem centre_move M t (pts : list V3) : set_center (map (move M t) pts) = option_map (move M t) (set_center pts).
+Proof.
+  destruct pts as [|p r]; [reflexivity|].
+  unfold set_center. cbn [map option_map]. set (l := p :: r). change (move M t p :: map (move M t) r) with (map (move M t) l).
+  f_equal. rewrite map_length.
+  destruct (fold_acc (map (move M t) l) (mk (nlit 0 1) (nlit 0 1) (nlit 0 1))) as (A & B & C).
+  destruct (fold_acc l (mk (nlit 0 1) (nlit 0 1) (nlit 0 1))) as (A' & B' & C').
+  destruct (sums_move M t l) as (SX & SY & SZ).
+  assert (Hn : INR (List.length l) <> 0) by (apply not_0_INR; discriminate).
+  assert (Hz : IZR (Z.of_nat (List.length l)) / IZR 1 = INR (List.length l)) by (rewrite <- INR_IZR_INZ; field).
+  rewrite A, B, C, A', B', C', SX, SY, SZ. unfold move, add, mapply. num_unfold. cbn [vec3_x vec3_y vec3_z]. simpl vec3_x. simpl vec3_y. simpl vec3_z.
+  rewrite Hz, lit0. set (n := INR (List.length l)) in *. clearbody n.
+  assert (P1 : forall a b c : R, vx (mk a b c) = a) by reflexivity. assert (P2 : forall a b c : R, vy (mk a b c) = b) by reflexivity.
+  assert (P3 : forall a b c : R, vz (mk a b c) = c) by reflexivity. rewrite !P1, !P2, !P3.
+  f_equal; field; exact Hn.
+Qed.
+(* the centre is never a default: it exists exactly for non-empty atom lists *)
+Theorem centre_defined (pts : list V3) : set_center pts <> None <-> pts <> [].
+Proof. destruct pts; cbn; split; intros H; congruence. Qed.
